@@ -3,8 +3,7 @@
    strict reader Spec/RespSpec.decode; the keep-alive decision of the three worker wrappers is related to the
    framing, to the client's Connection options and to the announced Connection field. *)
 From Coq Require Import List NArith ZArith Bool Lia Arith ZifyBool.
-From GV Require Import Base.Enc Base.Dec Model.RespStr Gen.GenResponse Model.Response Spec.RespSpec Spec.RespWB
-  Proof.RespStrProofs Proof.RespTables Proof.ResponseHead.
+From GV Require Import Base.Enc Base.Dec Model.RespStr Gen.GenResponse Model.Response Spec.RespSpec Spec.RespWB Proof.RespStrProofs Proof.RespTables Proof.ResponseHead.
 Import ListNotations.
 Local Open Scope N_scope.
 
